@@ -97,7 +97,7 @@ def gen_case(rng, index, tier):
     nprocs = rng.choice([2, 2, 2, 3, 3, 3, 4, 4, 5] + ([6, 7] if tier == 'thorough' else []))
     gran = 'line' if rng.random() < 0.3 else 'sync'
     case = dict(kind=kind, prog=prog, nprocs=nprocs, compile_procs=rng.choice([2, nprocs, nprocs, 7, 1]), gran=gran,
-                sched=gen_sched(rng), faults=[], cfg=dict(cache=rng.random() < 0.7, twice=rng.random() < 0.3))
+                sched=gen_sched(rng), faults=[], cfg=dict(cache=rng.random() < 0.7, twice=rng.random() < 0.3, after=rng.random() < 0.4, foreign_child=rng.random() < 0.15))
     if rng.random() < (0.10 if tier == 'thorough' else 0.04) and kind in ('expr', 'locate'):
         # kill-point sweep on a small instance
         case.update(sweep=True, gran='sync', nprocs=rng.choice([2, 2, 3]), faults=[], budget_s=60 if tier == 'thorough' else 15)
@@ -321,6 +321,13 @@ def _simulate(call, case, faults, trace_codes):
     from nutils import parallel
     sim = procsim.Sim(case['sched'], faults=faults, granularity=case['gran'], trace_codes=trace_codes)
     outcome = None
+    foreign = None
+    if case['cfg'].get('foreign_child'):
+        # the host application has a child process of its own that has already exited (status 0) and was not yet reaped: joining the
+        # workers must not mistake it for one of them
+        foreign = os.fork()
+        if foreign == 0:
+            os._exit(0)
     try:
         with sim, parallel.maxprocs(case['nprocs']):
             try:
@@ -333,7 +340,11 @@ def _simulate(call, case, faults, trace_codes):
             except BaseException as e:
                 outcome = ('raise', f'{type(e).__name__}: {e}'[:300])
     finally:
-        pass
+        if foreign:
+            try:
+                os.waitpid(foreign, 0)
+            except ChildProcessError:
+                pass
     info = dict(events=sim.event_list(), digest=sim.digest(), steps=int(sim.hdr[procsim.H_STEP]), fired=sim.fired_faults(),
                 nslots=int(sim.hdr[procsim.H_NSLOT]), maxconc=int(sim.hdr[procsim.H_MAXCONC]), probes=sim.probes.copy(),
                 dl_lock=int(sim.hdr[procsim.H_DL_LOCK]), dl_owner=int(sim.hdr[procsim.H_DL_OWNER]), evover=int(sim.hdr[procsim.H_EVOVER]),
@@ -482,7 +493,19 @@ def run_case(case):
             resolved = _resolve_faults(case, pilot['events'])
             faults = resolved
         outcome, info = _simulate(fresh(), case, faults, trace_codes)
-    res = judge(case, ref, outcome, info, faults)
+        res = judge(case, ref, outcome, info, faults)
+        if res['verdict'] == 'pass' and case['cfg'].get('after') and any(info['fired']) and outcome[0] == 'raise':
+            # recovery: the failed call is followed, in the same process, by a fault-free call of a freshly compiled function of the same program
+            # (same loop lengths): whatever the failure left behind must not reach it
+            c2 = copy.deepcopy(case)
+            c2['cfg']['foreign_child'] = False
+            outcome2, info2 = _simulate(fresh(), c2, [], trace_codes)
+            res2 = judge(case, ref, outcome2, info2, [])
+            res.setdefault('probes', {})['call_after_failed_call'] = 1
+            if res2['verdict'] != 'pass':
+                res2['detail'] = 'fault-free call after a call that failed by an injected fault, same process: ' + str(res2.get('detail'))
+                res2['vclass'] = str(res2.get('vclass')) + '-after-failed-call' if res2['verdict'] == 'violation' else res2.get('vclass')
+                res = res2
     if resolved is not None:
         rc = copy.deepcopy(case)
         rc['faults'] = resolved
@@ -603,6 +626,8 @@ def shrink_candidates(case):
         yield shrink.with_key(c, ['prog', 'dtype'], 'float')
     if c['cfg'].get('twice'):
         yield shrink.with_key(c, ['cfg', 'twice'], False)
+    if c['cfg'].get('foreign_child'):
+        yield shrink.with_key(c, ['cfg', 'foreign_child'], False)
     for i, f in enumerate(c['faults']):
         if 'n' in f:
             for v in shrink.int_reductions(f['n'], 1):
